@@ -573,6 +573,10 @@ func grpcExtractTimeoutFromHeaders(headers http.Header, meta *requestMeta) error
 		return nil
 	}
 	timeout, err := grpcDecodeTimeout(timeoutStr)
+	if errors.Is(err, errNoTimeout) {
+		// Effectively unbounded: a valid value that we treat as no timeout.
+		return nil
+	}
 	if err != nil {
 		return err
 	}
